@@ -155,6 +155,13 @@ theorem canonical_slice_nil (e : Ty) : canonical (.slice e) .nil = .nil := by
 theorem canonical_slice_empty (e : Ty) : canonical (.slice e) (.list .nil) = .nil := by
   cases e <;> simp [canonical, canonTy, canon, canonTyList, canonVals]
 
+theorem zeroBytes_eq_replicate : ∀ s : Bytes, isZeroBytes s = true → s = List.replicate s.length 0
+  | [], _ => rfl
+  | c :: cs, h => by
+    simp only [isZeroBytes, List.all_cons, Bool.and_eq_true, beq_iff_eq] at h
+    have ih := zeroBytes_eq_replicate cs (by simpa [isZeroBytes] using h.2)
+    simp only [List.length_cons, List.replicate_succ, h.1, ← ih]
+
 mutual
 theorem absent_agr (t : Ty) (o : FieldOpt) (v : Val) (wz : Bool)
     (hv : hasType t v = true) (hne : noEmptyPtr t v = true) (hns : isSlice t = false)
@@ -202,6 +209,15 @@ theorem absent_agr (t : Ty) (o : FieldOpt) (v : Val) (wz : Bool)
       simp only [Spec.Protobuf.zeroOf, this]; exact Agr.rfl' _ _ _
   case bytes.str s => simp [payload] at h
   case bytes.nil => simp only [Spec.Protobuf.zeroOf]; exact Agr.rfl' _ _ _
+  case arr.str n e s =>
+    simp only [Bool.and_eq_true, decide_eq_true_eq] at hv
+    have := isByte_eq e hv.1; subst this
+    simp only [payload] at h
+    split at h
+    · cases h
+    · rename_i hb; simp only [Bool.or_eq_true, not_or, Bool.not_eq_true, Bool.not_eq_false'] at hb
+      have : s = List.replicate n 0 := by rw [← hv.2]; exact zeroBytes_eq_replicate s hb.1
+      simp only [Spec.Protobuf.zeroOf, this]; exact Agr.rfl' _ _ _
   case struct.struct fs vs =>
     simp only [payload] at h
     split at h
@@ -463,6 +479,14 @@ theorem decode_scalar_exact (t : Ty) (o : FieldOpt) (v : Val) (wz : Bool) (cur :
     case str s => simp only [payload] at hp; cases hp; simp only [decodeOne]
     case nil =>
       exact absurd ⟨rfl, rfl⟩ hnb
+  case arr n e =>
+    have := isByte_eq e ht; subst this
+    cases v <;> simp only [hasType, Bool.and_eq_true, decide_eq_true_eq] at hv <;> try (exact absurd hv (by decide))
+    rename_i s
+    simp only [payload] at hp
+    split at hp
+    · cases hp; simp [decodeOne, hv.2]
+    · cases hp
 
 /-- scalar (non-message) field: the reference decoder reads the record back as the value -/
 theorem decode_scalar (t : Ty) (o : FieldOpt) (v : Val) (wz : Bool) (cur : Val) (fuel : Nat)
